@@ -125,14 +125,18 @@ function enumerateFunctions(ctxGlobal, before) {
   const seen = new Set();
   function walk(obj, path, depth) {
     if (depth > 12 || obj === null) return;
-    if (typeof obj === 'function') {
-      out.push(path);
-      return;
-    }
-    if (typeof obj !== 'object' || seen.has(obj)) return;
+    if (typeof obj !== 'object' && typeof obj !== 'function') return;
+    if (seen.has(obj)) return;
     seen.add(obj);
     let keys;
-    try { keys = Object.getOwnPropertyNames(obj); } catch (e) { return; }
+    if (typeof obj === 'function') {
+      // a function may itself carry functions (a template a.b.c next to a namespace a.b.c):
+      // its own ENUMERABLE properties are walked (not prototype / length / name)
+      out.push(path);
+      try { keys = Object.keys(obj); } catch (e) { return; }
+    } else {
+      try { keys = Object.getOwnPropertyNames(obj); } catch (e) { return; }
+    }
     for (const k of keys) {
       let v;
       try { v = obj[k]; } catch (e) { continue; }
